@@ -133,10 +133,13 @@ func runC10(c *Ctx) {
 			return c10Finalize, true
 		case invokeIs(call, keysPkg, "ManagerInterface", "DestroyKeyVersion"):
 			args := call.Common().Args
-			if len(args) >= 2 && sl.Derives(args[1], isPSKV) {
+			// (the version may arrive as a parameter of a helper that is handed it: followed to the call sites)
+			lsl := flow.NewSlicer(c.P)
+			lsl.LiftParams = 2
+			if len(args) >= 2 && (sl.Derives(args[1], isPSKV) || lsl.Derives(args[1], isPSKV)) {
 				return c10DestroyOld, true
 			}
-			if len(args) >= 2 && sl.Derives(args[1], isCreate) {
+			if len(args) >= 2 && (sl.Derives(args[1], isCreate) || lsl.Derives(args[1], isCreate)) {
 				return c10DestroyNew, true
 			}
 			return 0, false
